@@ -2022,6 +2022,10 @@ class Exec(object):
                     return self.wrap(k.__dict__[name], "class:%s.%s" % (k.__name__, name))
             if self.frame.spec:
                 raise Unsupported("spec reads missing attribute %s" % name)
+            if str(getattr(o, "origin", "") or "").startswith("param:"):
+                # a symbolic object built from the contract's field schema: a field the schema does not list is
+                # unknown state (e.g. added to __init__ later), not a missing attribute
+                raise Unsupported("the object schema of %s has no field '%s'" % (o.cls.__name__, name))
             raise Raised(AttributeError, line, implicit=True, note=name)
         if isinstance(o, ClassRef):
             if name in ("__name__",):
